@@ -297,6 +297,9 @@ def alg_name_tables(prog, env):
     for name in list(ALGS) + NEAR_MISS:
         it = Interp(prog, 'libjwt/jwt.c', model=model)
         r = it.run('jwt_str_alg', [Str(name)])
+        if any(not isinstance(rv, Int) for s, rv in r):
+            raise Unsupported('jwt_str_alg(%r) does not evaluate to a concrete value (%s): the table cannot be decided'
+                              % (name, [repr(rv)[:80] for s, rv in r][:2]))
         outs = set(rv.v if isinstance(rv, Int) else repr(rv) for s, rv in r)
         to_alg[name] = outs
         for f in it.funcs_entered:
